@@ -3,7 +3,8 @@
 (* unprotect and Child SA derivations on long-lived SA key objects -- made concrete and replayed on real long-lived *)
 (* IKESAKey objects.  The expected result of every operation is what a FRESH object with the same keys gives.       *)
 EXTENDS SKLife, Pools
-CONSTANTS MaxOps, Stride      \* Stride > 1: only every Stride-th finished history (by hash) is printed
+CONSTANTS MaxOps, Stride,     \* Stride > 1: only every Stride-th finished history (by hash) is printed
+          PropId              \* the property the run is made for (the histories serve C17 and the history part of C01 C02 C06 C08)
 VARIABLES sent, net, macbuf, prfbuf, outcome, fresh, decBeforeMac, cipherOnPlain, ops, done
 SC == INSTANCE SKChannel WITH Msgs <- {"m1", "m2"}, ResetBeforeMac <- TRUE, ResetPerPrfBlock <- TRUE, MacFirst <- TRUE, PeerKeys <- TRUE
 
@@ -40,13 +41,13 @@ Walk(s, su, st, ss, sm) ==
   ELSE LET o == Head(s) il == IcvLen(su.integ)
            w(k) == RefT(ss[k], "wire", LibProtectedLen(Concrete(sm[k]), su)) IN
        CASE o.op = "protect" ->
-              << ProtectStep("C17", o.o, o.r, Concrete(o.m), "system"),
+              << ProtectStep(PropId, o.o, o.r, Concrete(o.m), "system"),
                  SaNew("F", su, KeysOf(su, KsOf(o.o))),
-                 UnprotectStep("C17", "F", ~o.r, Ref(st + 1, "wire"), "nil", AcceptExp(Concrete(o.m))) >>
+                 UnprotectStep(PropId, "F", ~o.r, Ref(st + 1, "wire"), "nil", AcceptExp(Concrete(o.m))) >>
               \o Walk(Tail(s), su, st + 3, Append(ss, st + 1), Append(sm, o.m))
          [] o.op = "adv" -> Walk(Tail(s), su, st, ss, sm)
          [] o.op = "unprotect" ->
-              << UnprotectStep("C17", o.o, o.r, DatagramTerm(w, il, o.h, o.b, o.i, o.sk), IF (o.h + o.b) % 2 = 0 THEN "nil" ELSE "pre",
+              << UnprotectStep(PropId, o.o, o.r, DatagramTerm(w, il, o.h, o.b, o.i, o.sk), IF (o.h + o.b) % 2 = 0 THEN "nil" ELSE "pre",
                                CASE o.exp.v = "accept" -> AcceptExp(Concrete(o.exp.m))
                                  [] o.exp.v = "reject" -> RejectExp
                                  [] OTHER -> PlainExp) >>
@@ -55,7 +56,7 @@ Walk(s, su, st, ss, sm) ==
               LET keys == KeysOf(su, KsOf(o.o))
                   el == EncrKeyLen(ChildEncr(o.n)) al == IntegKeyLen(ChildInteg(o.n))
                   pfx == "C" \o ToString(st) \o "_" IN
-              << Step("derive_child", "C17", FALSE, [sa |-> o.o, nonce |-> NonceOf(o.n), encr |-> ChildEncr(o.n), integ |-> ChildInteg(o.n)],
+              << Step("derive_child", PropId, FALSE, [sa |-> o.o, nonce |-> NonceOf(o.n), encr |-> ChildEncr(o.n), integ |-> ChildInteg(o.n)],
                       [panic |-> FALSE, err |-> FALSE] @@ ChildKeyRec(pfx, su.prf, el, al))
                  @@ [defs |-> ChildKeyDefs(pfx, su.prf, keys.sk_d, NonceOf(o.n), el, al)] >>
               \o Walk(Tail(s), su, st + 1, ss, sm)
